@@ -18,7 +18,7 @@ RULE = ("MDP specs: discounted (any structure, implicit+explicit absorbing state
         "returned policy over its own closure, listener invariant after every main-loop iteration. Non-trivial: >=3 "
         "reachable states, a stochastic action, inexact heuristic and >=2 expansions; distinct by spec hash."
         ' Also: MDPs of 16-45 states, None as an action label, heuristic-relative ties.'
-        ' 150-260-state problems.')
+        ' 150-260-state problems. Re-run capped at the number of main-loop passes the search made (same result).')
 ASSUMPTIONS = ["reference V* by deterministic-policy enumeration (certified by Bellman residual)", "tolerance 1e-8 "
                "(LAO* rounds action values to 10 decimals)"]
 TOL = 1e-8
@@ -206,6 +206,23 @@ def prop_lao(case, ctx):
     ev = ref.evaluate(pi)
     jpi = float(sum(ref.p0[s] * ev["V"][s] for s in range(ref.n) if ref.p0[s] > 0))
     ctx.check(abs(jpi - jstar) <= TOL * scale, "C03.policy_return_optimal", lambda: f"J_pi {jpi} optimal {jstar}")
+    # an iteration cap that does not cut the search short changes nothing: the same search, allowed exactly as many passes of
+    # the main loop as it made, still reports convergence with the same value and the same policy on its closure
+    n_passes = getattr(res.event_listener, "iters", 0)
+    deterministic = case["seed"] is not None or not (case["randomize_action_order"] or case["randomize_nextstate_order"])
+    if res.converged is True and 1 <= n_passes <= 400 and deterministic:
+        capped = LAOStar(heuristic=h, seed=case["seed"], randomize_action_order=case["randomize_action_order"],
+                         randomize_nextstate_order=case["randomize_nextstate_order"], max_lao_star_iterations=n_passes)
+        res2 = ctx.call("C03.plan_raises", capped.plan_on, mdp)
+        ctx.check(res2.converged is True, "C03.converged",
+                  lambda: f"converged={res2.converged} with max_lao_star_iterations={n_passes}, the number of passes the uncapped search made")
+        ctx.check(float(res2.initial_value) == float(res.initial_value), "C03.initial_value_optimal",
+                  lambda: f"capped at its own {n_passes} passes: initial_value {res2.initial_value} vs {res.initial_value}")
+        if res2.converged is True:
+            pi2, seen2 = policy_closure(ctx, "C03", res2.policy, spec, ref, view)
+            ctx.check(seen2 == seen and all(np.array_equal(pi2[s], pi[s]) for s in seen), "C03.policy_return_optimal",
+                      lambda: f"capped at its own {n_passes} passes: policy closure {sorted(seen2)} vs {sorted(seen)}")
+        ctx.event("capped_rerun")
     n_expanded = sum(1 for nd in res.explicit_graph.states_to_nodes.values() if nd.expanded)
     stochastic = any(sum(1 for ns, w, r in outs if w > 0) > 1 for s in seen for a, outs in spec["trans"][s])
     inexact = any(abs(hv - float(v)) > 1e-9 for hv, v in zip(hvals, vstar))
